@@ -73,6 +73,10 @@ type Scenario struct {
 	// instead of enumerated. Seg, when set, replaces the segmentation policies of the caller.
 	KStep int
 	Seg   *devsim.Seg
+	// LossOnly: the scenario only makes sense for connection loss (C06). Under a stall the hashline
+	// reply runs into the recorded C02 frame-boundary finding (a data line "##" ends the message for
+	// the read loop), which is not C05's to judge.
+	LossOnly bool
 }
 
 // Ks lists the fault offsets of an exchange of n bytes: all of them, or every KStep-th plus the ends.
@@ -335,6 +339,11 @@ func bigFiller(n int) string {
 
 // newNetconfBig: the reply to the FIRST rpc of the session carries big bytes of extra content.
 func newNetconfBig(version string, echo bool, big int) func(cfg devsim.Config, to time.Duration, extra ...util.Option) (*Session, error) {
+	return newNetconfBody(version, echo, big, "")
+}
+
+// newNetconfBody: the reply to the FIRST rpc carries big bytes of filler and/or the given extra content.
+func newNetconfBody(version string, echo bool, big int, extraBody string) func(cfg devsim.Config, to time.Duration, extra ...util.Option) (*Session, error) {
 	return func(cfg devsim.Config, to time.Duration, extra ...util.Option) (*Session, error) {
 		caps := []string{ncsim.Cap10, "urn:example:cap:one"}
 		if version == "1.1" {
@@ -350,6 +359,9 @@ func newNetconfBig(version string, echo bool, big int) func(cfg devsim.Config, t
 			body := NCBody(m.ID, s.nonce)
 			if big > 0 && s.nonce == 1 {
 				body = "<data>" + bigFiller(big) + body[len("<data>"):]
+			}
+			if extraBody != "" && s.nonce == 1 {
+				body = "<data>" + extraBody + body[len("<data>"):]
 			}
 			p := ncsim.Reply(m.ID, body)
 			var sizes []int
@@ -380,6 +392,13 @@ func openNC(s *Session) error {
 	return err
 }
 
+func clipS(s string, n int) string {
+	if len(s) > n {
+		return s[:n]
+	}
+	return s
+}
+
 var nonceRe = regexp.MustCompile(`<nonce>n\d+</nonce>`)
 
 // CanonNC strips the nonce from a NETCONF result so that runs are comparable.
@@ -396,6 +415,10 @@ func ncScenario(name, version string, echo bool, quick bool, call ncCall, perOp 
 			res, failed, err := call(s.D, opts...)
 			if err != nil {
 				return "", err
+			}
+			if failed {
+				// a reply the library marked failed (parse error, rpc-error) is an error report
+				return "", fmt.Errorf("reply marked failed: %s", clipS(res, 120))
 			}
 			return fmt.Sprintf("failed=%v %s", failed, CanonNC(res)), nil
 		},
@@ -472,6 +495,15 @@ func All() []*Scenario {
 		l = append(l, &Scenario{Name: "g.sendcommand", Driver: "generic", Quick: true, PerOp: true, SingleDeadline: true, New: newGeneric("privilege-exec"), Pre: openG,
 			Op: func(s *Session, o ...util.Option) (string, error) {
 				r, err := s.G.SendCommand("show version!", o...)
+				if err != nil {
+					return "", err
+				}
+				return r.Result, nil
+			}, Later: lf, LaterWant: lw})
+		// a command that begins like a session-ending word but is an ordinary command to this device
+		l = append(l, &Scenario{Name: "g.sendcommand-exit", Driver: "generic", Quick: true, PerOp: true, SingleDeadline: true, New: newGeneric("privilege-exec"), Pre: openG,
+			Op: func(s *Session, o ...util.Option) (string, error) {
+				r, err := s.G.SendCommand("exit all!", o...)
 				if err != nil {
 					return "", err
 				}
@@ -809,6 +841,17 @@ func All() []*Scenario {
 			b.KStep = 8191
 			b.Seg = &devsim.Seg{Mode: "fixed", Size: 4096, Seed: 1}
 			l = append(l, b)
+		}
+		{
+			// a 1.1 reply whose DATA contains a line that is exactly "##" (delivered in whole reads, where
+			// the recorded C02 boundary finding does not bite): a loss right after that line must not
+			// come back as a (cut short) success
+			h := ncScenario("nc.get-hashline-1.1", "1.1", false, true, calls[0].call, true)
+			h.New = newNetconfBody("1.1", false, 0, "<note>first line\n##\nthird line</note>")
+			h.Seg = &devsim.Seg{Mode: "whole", Seed: 1}
+			h.LossOnly = true
+			h.Quick = false
+			l = append(l, h)
 		}
 		l = append(l, ncScenario("nc.get-1.0", "1.0", false, false, calls[0].call, true))
 		l = append(l, ncScenario("nc.get-1.1-echo", "1.1", true, false, calls[0].call, true))
